@@ -102,6 +102,17 @@ CLAIMED = {
         note=LP_NOTE + " ROOM / linear ROOM need finite bounds; quadratic MOMA needs a QP solver that is not installed (linear MOMA only).",
         technique="Lean 4 proof (formulation lemmas) + certified differential testing of pFBA / MOMA / ROOM optima",
         design="DESIGN.md section 5, C09"),
+    "C06": dict(
+        engine="lp",
+        text="Lean 4: exactly one row per distinct unordered combination, repeats collapse, order inside a pair irrelevant (one_row_per_combination, "
+             "canon_unordered); a deletion task run inside a with-block returns the model exactly as it found it (gene_task_restores, "
+             "reaction_task_restores, instances of the C03 theorem); gene knock-outs hit exactly the reactions whose rule becomes false (C07); "
+             "essential = growth NaN or below threshold (essential_iff). Every row of single/double gene/reaction deletion is compared with the optimum "
+             "of an independently knocked-out copy certified by the proved LP checker; linear-MOMA rows with the certified range of the old objective "
+             "over the certified minimal-adjustment set; essential sets with certified growths.",
+        note=LP_NOTE + " processes=1 in this check (C14 varies the process count).",
+        technique="Lean 4 proof (combination / task / filter logic over the Core and LP layers) + certified differential testing of every row",
+        design="DESIGN.md section 5, C06"),
 }
 
 PENDING_REASON = "check under construction in this session (see DESIGN.md section 9 build order); not claimed until its Lean model, theorems and correspondence exist"
@@ -140,7 +151,7 @@ def main():
              "kind_free_text": "Lean model DLM + theorems (lean/CobraModel/{Model,Lemmas,Props}) and op-sequence correspondence against cobra.core.DictList"},
             {"name": "core", "path": "harness/core_engine.py", "serves_properties": ["C01", "C02", "C03", "C07"],
              "kind_free_text": "Lean Core model (content + solver + undo stack as functions over ids), theorems in Props/C01,C02,C03,C07, traces on the real model with raw GLPK read-out"},
-            {"name": "lp", "path": "harness/lpcert.py", "serves_properties": ["C04", "C05", "C09"],
+            {"name": "lp", "path": "harness/lpcert.py", "serves_properties": ["C04", "C05", "C06", "C09"],
              "kind_free_text": "Lean LP model + proved certificate checker (Model/LP.lean, Lemmas/LP.lean), untrusted exact simplex, constructive FBA instance generator"},
             {"name": "gpr", "path": "harness/c08.py", "serves_properties": ["C08"],
              "kind_free_text": "Lean model GPRM (rule trees, parser, remover) + generated escape tables + correspondence against cobra.core.gene.GPR"},
